@@ -43,6 +43,8 @@ structure MS (R : Type) where
   `workloadResourcesMap` of the nodes whose Alloc succeeded, and `rollbackMap`) -/
   allocd : List (String × R) := []
   failed : List (String × R) := []
+  /-- scratch flag of an operation (Go: a captured local such as `metaUpdated` of `doReallocOnNode`) -/
+  flag : Bool := false
   /-- cancellation plan of the run: the caller's context ends right before (`false`) or right after
   (`true`) the addressed step -/
   cancel : Option (Addr × Bool) := none
@@ -129,6 +131,7 @@ def getSt : M R (State R) := fun _ ms => (.ok ms.st, ms)
 
 def emit (m : Msg R) : M R Unit := fun _ ms => (.ok (), { ms with msgs := ms.msgs ++ [m] })
 
+def setFlag (b : Bool) : M R Unit := fun _ ms => (.ok (), { ms with flag := b })
 def getMS : M R (MS R) := fun _ ms => (.ok ms, ms)
 def noteAlloc (n : String) (r : R) : M R Unit := fun _ ms => (.ok (), { ms with allocd := ms.allocd ++ [(n, r)] })
 def noteFailed (n : String) (r : R) : M R Unit := fun _ ms => (.ok (), { ms with failed := ms.failed ++ [(n, r)] })
